@@ -75,6 +75,8 @@ def translators():
   out['Src_itml'] = lambda: translate_itml.translate(REPO)
   import translate_lsml
   out['Src_lsml'] = lambda: translate_lsml.translate(REPO)
+  import translate_scml
+  out['Src_scml'] = lambda: translate_scml.translate(REPO)
   try:
     import translate_all
     out.update(translate_all.TRANSLATORS)
